@@ -287,6 +287,9 @@ contract(A + '_result_iter', props=['C15'],
                   'implies(not use_result_objects, forall(lambda m: implies(0 <= m < len(result), result[m] == results[m])))'],
          loops={0: dict(yield_type='opaque', inv=['len(yielded) == _k',
                                                  'implies(not use_result_objects, forall(lambda m: implies(0 <= m < _k, yielded[m] == results[m])))'],
+                        # (`exception` is local to one iteration in the code; typed here so that a version that carries it from
+                        # item to item is still inside the subset and is refuted by the per-item clause)
+                        types={'exception': 'opt[opaque]'},
                         body_trace=[_wrap_item])},
          must_fail='len(result) == 0')
 
